@@ -54,6 +54,7 @@ CFGS_QUICK = [
 ]
 CFGS_EXTRA = [(2, 3, 64, "RC4", True), (2, 3, 80, "RC4", True), (2, 3, 96, "RC4", True), (2, 3, 104, "RC4", True), (2, 3, 120, "RC4", True)]
 
+EMPTY_STYLES = ["full", "bare", "iv-only"]
 P_POOL = [-44, -4, -3904, -3900, -3896, -3888, -1]
 ID_POOL = [bytes(range(0x30, 0x40)), None]
 
@@ -73,8 +74,8 @@ META = {
         "reference encryptor (mc/refs/security.py) validated by decrypting 8 third-party sample files and against cryptography's ARC4; AES/SHA/MD5 primitives of cryptography/hashlib trusted",
         "SASLprep expectations are the RFC 4013 example table plus identity on NFKC-stable Latin/Greek letters; other Unicode passwords not explored",
         "R<=4 passwords: PDFDocEncoding-representable strings only as real passwords; unrepresentable ones only as wrong passwords",
-        "not generated: P with reserved-one bits clear, StmF != StrF, per-stream /Crypt filters, public-key handlers, V=3, zero-length AES ciphertexts, object numbers >= 2^23",
-        "the cross-reference stream fetched as an ordinary object through getobj() is counted under not_judged (the statement speaks of the trailer, which is compared)",
+        "not generated: P with reserved-one bits clear, StmF != StrF, per-stream /Crypt filters, public-key handlers, V=3",
+        "zero-length strings/streams under AES are written three ways (IV + padding block; nothing; IV only) and must all read back empty",
         "one plaintext document shape (2 byte-content variants); strings of 0,1,15,16,17,32 and 300 bytes, streams of 0,1,16,31 and 600 bytes (raw and Flate) plus one page content stream",
     ],
 }
@@ -155,6 +156,9 @@ def plain_doc(variant: int, ident: Optional[bytes]) -> S.Plain:
     o[300] = (7, {"S": _s(16, variant, 34), "T": [_s(15, variant, 35)]})
     o[70001] = (258 if variant == 0 else 65535, [_s(17, variant, 36), _s(1, variant, 37)])
     o[1193046] = (0, Stream({"Note": _s(15, variant, 38)}, _s(16, variant, 39)))
+    # beyond the 2**23-1 of Annex C; 0x1000005 shares its low-order three bytes (all Algorithm 1 uses) with object 5
+    o[8388608] = (0, {"Big": _s(17, variant, 42), "L": [_s(16, variant, 43)]})
+    o[16777221] = (0, Stream({"Huge": _s(15, variant, 44)}, _s(31, variant, 45)))
     idp = None if ident is None else (ident, bytes(reversed(ident)))
     return S.Plain(o, Ref(1), Ref(6), idp)
 
@@ -243,11 +247,12 @@ def diff(exp: Any, obs: Any, path: Tuple = ()):
 
 # ----------------------------------------------------------------- one case
 class Params:
-    FIELDS = ("cfg", "em", "user", "owner", "P", "p_unsigned", "ident", "layout", "enc_indirect", "hexstr", "variant")
+    FIELDS = ("cfg", "em", "user", "owner", "P", "p_unsigned", "ident", "layout", "enc_indirect", "hexstr", "variant", "empty_style")
+    DEFAULTS = {"empty_style": "full"}
 
     def __init__(self, **kw):
         for f in self.FIELDS:
-            setattr(self, f, kw[f])
+            setattr(self, f, kw[f] if f in kw else self.DEFAULTS[f])
 
     def asdict(self):
         return {f: getattr(self, f) for f in self.FIELDS}
@@ -261,8 +266,9 @@ def build(p: Params):
     """-> (pdf bytes, model dict, handler, info)"""
     cfg = S.Cfg(*p.cfg)
     doc = plain_doc(p.variant, p.ident)
-    h = S.Handler(cfg, p.user, p.owner, p.P, p.ident or b"", p.em, p.p_unsigned, salt=(tuple(p.cfg), p.em, p.user, p.owner, p.P))
-    pdf, info = S.write_pdf(doc, h, p.layout, OBJSTM_MEMBERS, p.enc_indirect, p.hexstr)
+    h = S.Handler(cfg, p.user, p.owner, p.P, p.ident or b"", p.em, p.p_unsigned, salt=(tuple(p.cfg), p.em, p.user, p.owner, p.P),
+                  empty_style=p.empty_style)
+    pdf, info = S.write_pdf(doc, h, p.layout, OBJSTM_MEMBERS, p.enc_indirect, p.hexstr, xref_flate=bool(p.variant))
     model = {num: canon_model(obj) for num, (gen, obj) in doc.objs.items()}
     return pdf, model, h, info, doc
 
@@ -401,6 +407,18 @@ def judge(p: Params, pdf: bytes, model, h, info, pw: str, full: bool) -> Tuple[L
             e2 = doc.getobj(info["encrypt"])
             if e2.get("O") != h.O or e2.get("U") != h.U:
                 sigs.setdefault("C10/encrypt-dict-altered", ((h.O, h.U), (e2.get("O"), e2.get("U")), "getobj(/Encrypt object) must return the strings as stored"))
+        if "xref" in info:
+            xs = doc.getobj(info["xref"])
+            try:
+                xd = xs.get_data()
+            except Exception as e:  # noqa
+                xd = ("EXC", _exc_sig(e))
+            if xd != info["xref_data"]:
+                sigs.setdefault("C10/xref-stream-data-deciphered", (info["xref_data"], xd,
+                                "the cross-reference stream is never encrypted (7.5.8.2); fetched through getobj() its data came back altered"))
+            xid = resolve1(xs.attrs.get("ID"))
+            if xid != tid_exp:
+                sigs.setdefault("C10/xref-stream-dict-string-deciphered", (tid_exp, xid, "strings in the cross-reference stream dictionary are never encrypted; getobj() returned them altered"))
         di = canon_impl(doc.info)
         if di != [model[6]]:
             d0 = next(diff([model[6]], di), None)
@@ -439,8 +457,10 @@ def _program_for(cfg, em, user, owner):
         encind = x.flag("Encrypt-indirect")
         hexstr = x.flag("hex-strings")
         variant = x.choose(2, "variant")
+        # zero-length strings/streams under AES: IV + padding block, nothing at all, IV only (no choice without AES)
+        es = x.pick(EMPTY_STYLES if cfg[3] in ("AESV2", "AESV3") else EMPTY_STYLES[:1], "empty-style")
         return Params(cfg=cfg, em=em, user=user, owner=owner, P=P, p_unsigned=pu, ident=ident, layout=layout,
-                      enc_indirect=encind, hexstr=hexstr, variant=variant)
+                      enc_indirect=encind, hexstr=hexstr, variant=variant, empty_style=es)
 
     return program
 
@@ -474,8 +494,6 @@ def run_case(p: Params, st, default: bool, first: bool) -> None:
         st.add("openings_expected_" + exp, 1)
         for sig, e_, o_, what in viol:
             st.violation(sig, _case_dict(p, pdf, pw, full), e_, o_, what)
-    if "xref" in info:
-        st.not_judged["cross-reference stream fetched through getobj()"] += 1
     if first:
         st.sample({"params": p.asdict(), "pdf_len": len(pdf), "passwords_tried": len(seen), "encrypt": repr(h.encrypt_dict())[:300]})
 
